@@ -139,3 +139,27 @@ Definition create_gate (f : fs) (p : path) (overwrite : bool) : res unit :=
   | Some _ => Err OSError                              (* a plain file / link is in the way *)
   | None => Ok tt
   end.
+
+(* ---------- deleting a ragged array directory (darr/raggedarray.py delete_raggedarray) ---------- *)
+(* the top-level files are unlinked first (directories are skipped), then values/ and indices/
+   are deleted as arrays, then the directory is removed; a failure stops the sequence *)
+Definition delete_ragged (f : fs) (base : path) (topfiles afiles : list string) (opens writable : bool)
+  : res unit * fs :=
+  if negb opens then (Err TypeError, f)
+  else if negb writable then (Err OSError, f)
+  else
+    let f1 := fold_left (fun f n => match fs_get (base ++ [n]) f with
+                                    | Some (FFile _) | Some (FLink _) => fs_del (base ++ [n]) f
+                                    | _ => f end) topfiles f in
+    match delete_dir f1 (base ++ ["values"%string]) afiles true true with
+    | (Err e, f2) => (Err e, f2)
+    | (Ok _, f2) =>
+        match delete_dir f2 (base ++ ["indices"%string]) afiles true true with
+        | (Err e, f3) => (Err e, f3)
+        | (Ok _, f3) =>
+            match fs_children base f3 with
+            | [] => (Ok tt, fs_del base f3)
+            | _ => (Err OSError, f3)
+            end
+        end
+    end.
